@@ -77,6 +77,45 @@ TWINS = [
 ]
 
 
+def _lin(prog, mod, e, own, lo, hi):
+    """row expression as a sympy form over (ymin, ymax, row_lo, row_hi);
+    data.shape[0] is row_hi - row_lo"""
+    import sympy as sp
+    from .. import sym
+    Y0, Y1, L, H = sp.symbols("ymin ymax row_lo row_hi", integer=True)
+
+    class T(sym.Translator):
+        def expr(self, n):
+            if isinstance(n, ast.Subscript) and \
+                    norm(n).replace(" ", "") == "data.shape[0]":
+                return H - L
+            return super().expr(n)
+    if e is None:
+        return None
+    try:
+        return sp.expand(T(prog, mod, {own[0]: Y0, own[1]: Y1, lo: L,
+                                       hi: H}).expr(e))
+    except sym.Untranslatable:
+        return None
+
+
+def _own_rows(prog, mod, sub, own, lo, hi):
+    """does the subscript select exactly the stripe's own rows (relative to
+    the loaded block) and all columns?"""
+    import sympy as sp
+    Y0, Y1, L, H = sp.symbols("ymin ymax row_lo row_hi", integer=True)
+    sl = sub.slice.elts if isinstance(sub.slice, ast.Tuple) else [sub.slice]
+    if not isinstance(sl[0], ast.Slice):
+        return False
+    a = _lin(prog, mod, sl[0].lower, own, lo, hi) if sl[0].lower is not None \
+        else sp.Integer(0)
+    b = _lin(prog, mod, sl[0].upper, own, lo, hi)
+    cols_all = len(sl) == 1 or (isinstance(sl[1], ast.Slice) and
+                                sl[1].lower is None and sl[1].upper is None)
+    return a is not None and b is not None and cols_all and \
+        sp.expand(a - (Y0 - L)) == 0 and sp.expand(b - (Y1 - L)) == 0
+
+
 def run(ctx):
     prog = ctx.prog
     sfn = prog.func("BANE.sigma_filter")
@@ -270,13 +309,20 @@ def run(ctx):
     if len(mdef) != 1:
         raise AnalysisError("C06-R4: mask definition not found")
     mn, ms = mdef[0]
-    mtxt = norm(ms.value).replace(" ", "")
-    own_rows = "data[0+%s-%s:data.shape[0]-(%s-%s),:]" % (own[0], lo, hi,
-                                                          own[1])
-    own_rows2 = "data[%s-%s:%s-%s,:]" % (own[0], lo, own[1], lo)
-    ctx.check("C06-R4", sfn, "mask = " + norm(ms.value, 80),
-              mtxt in ("~np.isfinite(%s)" % own_rows,
-                       "~np.isfinite(%s)" % own_rows2),
+    mod = prog.modules[sfn.module]
+    mv = ms.value
+    inner = None
+    if isinstance(mv, ast.UnaryOp) and isinstance(mv.op, ast.Invert):
+        inner = mv.operand
+    elif isinstance(mv, ast.Call) and norm(mv.func) in (
+            "np.logical_not", "np.bitwise_not") and mv.args:
+        inner = mv.args[0]
+    okmask = isinstance(inner, ast.Call) and \
+        norm(inner.func) in ("np.isfinite", "numpy.isfinite") and \
+        inner.args and isinstance(inner.args[0], ast.Subscript) and \
+        norm(inner.args[0].value) == "data" and \
+        _own_rows(prog, mod, inner.args[0], own, lo, hi)
+    ctx.check("C06-R4", sfn, "mask = " + norm(ms.value, 80), okmask,
               "the mask must be the non-finite pixels of the stripe's own "
               "rows of the loaded block", node=ms)
     writes = {a: [] for a in arrays}
@@ -325,8 +371,26 @@ def run(ctx):
             isinstance(c.func, ast.Attribute) and c.func.attr == "append" and
             norm(c.func.value) in ("rows", "cols") and c.args}
     d = {norm(s.targets[0]): norm(s.value).replace(" ", "") for s in rdef}
-    okr = d.get("rows") == "list(range(%s-%s,%s-%s,step_size[0]))" % (
-        own[0], lo, own[1], lo) and apps.get("rows") == "%s-%s" % (own[1], lo)
+    import sympy as sp
+    Y0, Y1, L, H = sp.symbols("ymin ymax row_lo row_hi", integer=True)
+    okr = False
+    rd_ = [s for s in rdef if norm(s.targets[0]) == "rows"]
+    ap_ = [c for c in walk_no_nested(sfn.node) if isinstance(c, ast.Call) and
+           isinstance(c.func, ast.Attribute) and c.func.attr == "append" and
+           norm(c.func.value) == "rows" and c.args]
+    if len(rd_) == 1 and len(ap_) == 1:
+        v = rd_[0].value
+        if isinstance(v, ast.Call) and norm(v.func) == "list" and v.args:
+            v = v.args[0]
+        if isinstance(v, ast.Call) and norm(v.func) == "range" and \
+                len(v.args) == 3:
+            a = _lin(prog, mod, v.args[0], own, lo, hi)
+            b = _lin(prog, mod, v.args[1], own, lo, hi)
+            c = _lin(prog, mod, ap_[0].args[0], own, lo, hi)
+            okr = None not in (a, b, c) and sp.expand(a - (Y0 - L)) == 0 \
+                and sp.expand(b - (Y1 - L)) == 0 and \
+                sp.expand(c - (Y1 - L)) == 0 and \
+                norm(v.args[2]) == "step_size[0]"
     okc = d.get("cols") == "list(range(0,shape[1],step_size[1]))" and \
         apps.get("cols") == "shape[1]"
     ctx.check("C06-R5", sfn, "row nodes %s + [%s]" % (d.get("rows"),
